@@ -103,7 +103,7 @@ int main(void)
 	same(m);
 	of_mod2dense_free(m); of_mod2dense_free(r);
 #elif DOP == 6        /* popcount helpers: all 32/64-bit arguments */
-	UINT32 w = in_u32(), ref = 0, a[3];
+	UINT32 w = in_u32(), ref = 0;
 	UINT64 x = in_u64(), refx = 0;
 	unsigned nbits = in_u8();
 	for (i = 0; i < 32; i++) ref += (w >> i) & 1;
@@ -113,12 +113,18 @@ int main(void)
 	CHECK(of_hweight32_naive(w) == ref, "C18.hweight32_naive");
 	{ unsigned r8 = 0; for (i = 0; i < 8; i++) r8 += (w >> i) & 1; CHECK(of_hweight8_table((UINT8)w) == r8, "C18.hweight8_table"); }
 	CHECK((UINT64)of_popcount_3(x) == refx, "C18.popcount_3");
-	/* of_hweight_array: weight of the words covering `nbits` bits (unused high bits are zero in a matrix row) */
-	a[0] = w; a[1] = (UINT32)x; a[2] = 0;
-	ASSUME(nbits >= 1 && nbits <= 64);
-	if (nbits <= 32) CHECK(of_hweight_array(a, (INT32)nbits) == ref, "C18.hweight_array");
-	else CHECK(of_hweight_array(a, (INT32)nbits) == ref + of_hweight32((UINT32)x), "C18.hweight_array");
-#elif DOP == 7        /* the symbol-level solver used by ML decoding */
+	/* of_hweight_array: weight of the 32-bit words covering `nbits` bits, for 1..5 words (unused high bits are
+	 * zero in a matrix row, so the count of whole words is the row weight) */
+	{
+		UINT32 arr[6], nwords, refa = 0;
+		for (i = 0; i < 5; i++) arr[i] = in_u32();
+		arr[5] = 0;
+		ASSUME(nbits >= 1 && nbits <= 160);
+		nwords = (nbits + 31) / 32;
+		for (i = 0; i < 5; i++) if (i < nwords) refa += of_hweight32(arr[i]);
+		CHECK(of_hweight_array(arr, (INT32)nbits) == refa, "C18.hweight_array");
+	}
+#elif DOP == 7 || DOP == 8        /* the symbol-level solver used by ML decoding (DOP 8: all-zero right-hand sides are passed as NULL, as the ML decoder does) */
 	of_linear_binary_code_cb_t cb;
 	of_mod2dense *m;
 	void *ct[DR], *vt[DC], *tmp[DR + DC];
@@ -138,6 +144,13 @@ int main(void)
 			for (c = 0; c < DC; c++) if (M[i][c]) B[i][j] ^= X[c][j];
 			((unsigned char *)ct[i])[j] = B[i][j];
 		}
+#if DOP == 8
+		{	/* the solver chooses which of the all-zero constant terms are given as NULL */
+			unsigned zero = 1;
+			for (j = 0; j < PLEN; j++) zero &= (B[i][j] == 0);
+			if (zero && (in_u8() & 1)) { free(ct[i]); ct[i] = NULL; }
+		}
+#endif
 	}
 	for (j = 0; j < DC; j++) vt[j] = NULL;
 	st = of_linear_binary_code_solve_dense_system(&cb, m, ct, vt);
